@@ -136,7 +136,7 @@ package replication
 //@   loop 0 invariant seq != nil && fresh(seq) && -1 <= rangeindex && rangeindex < len(commands) && (isNilSlice(seq.Sequence) || fresh(seq.Sequence)) && (isNilSlice(buff) || fresh(buff))
 //@   loop 0 invariant [C05.batch.count] w.engine.NodeHost.nseq - old(w.engine.NodeHost.nseq) + len(seq.Sequence) == rangeindex + 1
 //@   loop 0 invariant (rangeindex == -1 || rangeindex == len(commands) - 1) ==> len(seq.Sequence) == 0
-//@   loop 0 invariant rangeindex >= 0 && len(seq.Sequence) == 0 ==> lastApplied == commands[rangeindex].LeaderIndex && hasLI(w.engine.NodeHost.lastCmd) && liVal(w.engine.NodeHost.lastCmd) == lastApplied
+//@   loop 0 invariant [C05.batch.li+C11] rangeindex >= 0 && len(seq.Sequence) == 0 ==> lastApplied == commands[rangeindex].LeaderIndex && hasLI(w.engine.NodeHost.lastCmd) && liVal(w.engine.NodeHost.lastCmd) == lastApplied
 
 // do: the log is requested from the index right after the last leader index the follower has
 // recorded for the table, and the commands of every answer are handed to proposeBatch with the
